@@ -111,6 +111,29 @@ def german_accounts():
             continue
         menu = c14.method_menu(m, limit=1500, max_entries=12)
         out["all_methods"][m] = {f"{rc}{'a' if acc else 'r'}-{ft}": a for (rc, acc, ft), a in menu.items()}
+    # a listed bank code with exactly one entry and no BIC; Norwegian seeds whose first candidate has
+    # no valid check digit (the draw retries); a valid Norwegian account starting with 00
+    for (cc, code), es in sorted(lookup.by_key().items()):
+        if len(es) == 1 and not es[0].get("bic"):
+            out["single_no_bic"] = [cc, code]
+            break
+    retry = []
+    for s_ in range(400):
+        calls = [0]
+
+        class Counting(random.Random):
+            def choice(self, seq):
+                calls[0] += 1
+                return super().choice(seq)
+        lib.outcome(lambda: lib.IBAN.random("NO", random=Counting(s_)))
+        if calls[0] > 13:
+            retry.append(s_)
+        if len(retry) == 2:
+            break
+    out["no_retry_seeds"] = retry
+    from ..ref import nat as _nat
+    b00 = _nat.with_check("NO", "86010012340")
+    out["no_00"] = ("NO" + ri.check_digits("NO", b00) + b00) if b00 else None
     # a bank code whose first registry entry is not the primary one (several entries, names differ)
     for (cc, code), es in sorted(lookup.by_key().items()):
         if cc == "DE" and len(es) > 1 and not es[0].get("primary") and any(e.get("primary") for e in es) \
@@ -118,6 +141,11 @@ def german_accounts():
             out["nonprimary_first"] = code
             break
     return out
+
+
+def c12_build(cc, code):
+    from . import c12
+    return c12.build_iban(cc, code)
 
 
 def build_alphabet(ga: dict, tier: str = "thorough"):
@@ -145,6 +173,19 @@ def build_alphabet(ga: dict, tier: str = "thorough"):
     add("nat-be-reject", lambda: I("BE41539007547035", validate_bban=True), True)
     add("nat-fr-accept", lambda: I("FR1420041010050500013M02606", validate_bban=True))
     add("nat-no-reject", lambda: I("NO9386011117948", validate_bban=True))
+    add("nat-no-accept", lambda: I("NO9386011117947", validate_bban=True), group="mNO")
+    add("generate-no", lambda: I.generate("NO", "8601", "111794"), group="mNO")
+    if ga.get("no_00"):
+        add("nat-no-account-00", (lambda t=ga["no_00"]: I(t, validate_bban=True)), group="mNO")
+    for s_ in ga.get("no_retry_seeds", []):
+        add(f"random-no-retrying-seed{s_}", (lambda s_=s_: I.random("NO", random=random.Random(s_))), group="mNO")
+    if ga.get("single_no_bic"):
+        cc_, code_ = ga["single_no_bic"]
+        add("lookup-single-entry-without-bic", (lambda: B.from_bank_code(cc_, code_)), True)
+        add("candidates-single-entry-without-bic", (lambda: B.candidates_from_bank_code(cc_, code_)))
+        t_ = c12_build(cc_, code_)
+        if t_:
+            add("iban-bank-of-single-entry-without-bic", (lambda: (I(t_).bank_name, I(t_).bic)), True)
     for m in ("16", "02", "25", "88"):
         for rc, acct in sorted(ga[m].items()):
             add(f"method{m}-{rc}", (lambda m=m, a=acct: alg["DE:" + m].validate([a], "")),
